@@ -121,5 +121,5 @@ def to_term(v):
             return ("bin", op, to_term(v[2]), to_term(v[3]), ty)
         if op == "Neg":
             return ("un", "Neg", to_term(v[2]))
-        return ("call", "?::" + op, tuple(to_term(x) for x in v[2:] if x is not None), None)
+        return ("call", "?::" + op.split(":")[0], tuple(to_term(x) for x in v[2:] if x is not None), None)      # `saturating_sub:i32` -> saturating_sub
     return ("opaque", str(v)[:40])
